@@ -27,12 +27,13 @@ GenInit == Init /\ hist = << >> /\ done = FALSE
 (* call (weighted) and then thins out the rejected instances of that kind.      *)
 (* This restricts which successors of Next are offered; it never adds one.      *)
 
-Kinds == {"create", "update", "delete", "deleteWhere", "createTeam", "deleteTeam", "links", "rc", "commitAction", "preCommit", "callerError", "commit"}
+Kinds == {"create", "update", "delete", "deleteWhere", "createTeam", "updateTeam", "deleteTeam", "links", "rc", "commitAction", "preCommit", "callerError", "commit"}
 Weight(k) == CASE k = "create" -> 5 [] k = "update" -> 4 [] k = "delete" -> 2 [] k = "createTeam" -> 2 [] k = "deleteTeam" -> 1
                [] k = "links" -> 4 [] k = "rc" -> 4 [] k = "commit" -> 3 [] OTHER -> 1
 LinkNames == {"addLinks", "removeLinks", "setLinks", "addLink", "removeLink"} \cap Ops
 RcNames   == {"rcInc", "rcDec", "rcSet"} \cap Ops
 Active(k) == CASE k \in {"create", "update", "delete", "deleteWhere", "createTeam", "deleteTeam"} -> k \in Ops /\ InTx
+               [] k = "updateTeam" -> k \in Ops /\ InTx /\ ChildFeatures
                [] k = "links" -> LinkNames # {} /\ InTx
                [] k = "rc" -> RcNames # {} /\ InTx
                [] k = "commitAction" -> "commitAction" \in Ops /\ txn.acts < 2
@@ -48,11 +49,14 @@ KindStep(k) ==
     [] k = "update" -> \E via \in Vias, id \in Ids, lt \in LtPool, f \in FieldSets, veto \in VetoPool, os \in OpSysPool : \E p \in Persons(id) : \E x \in XFor(via) : TxUpdate(via, id, p, x, lt, f, veto, os)
     [] k = "delete" -> \E via \in Vias, id \in Ids, veto \in VetoPool, os \in OpSysPool : TxDelete(via, id, veto, os)
     [] k = "deleteWhere" -> \E via \in Vias, os \in OpSysPool : \E pr \in WherePool(via) : TxDeleteWhere(via, pr, os)
-    [] k = "createTeam" -> \E t \in Teams : TxCreateTeam(t)
+    [] k = "createTeam" -> \E t \in Teams, c \in ChiefPool : TxCreateTeam(t, c)
+    [] k = "updateTeam" -> \E t \in Teams, c \in ChiefPool : TxUpdateTeam(t, c)
     [] k = "deleteTeam" -> \E t \in Teams, os \in OpSysPool : TxDeleteTeam(t, os)
     [] k = "links" -> \/ \E n \in LinkNames \cap {"addLinks", "removeLinks", "setLinks"}, p \in Ids, ts \in SUBSET Teams : TxLinks(n, p, ts)
                       \/ \E n \in LinkNames \cap {"addLinks", "removeLinks", "setLinks"}, t \in Teams, ps \in SUBSET Ids : TxLinksT(n, t, ps)
                       \/ \E n \in LinkNames \cap {"addLink", "removeLink"}, p \in Ids, t \in Teams : TxLink1(n, p, t)
+                      \/ \E n \in LinkNames \cap {"addLinks", "removeLinks", "setLinks"}, p \in Ids, ts \in SUBSET Teams : TxLinksS(n, p, ts)
+                      \/ \E n \in LinkNames \cap {"addLinks", "removeLinks", "setLinks"}, t \in Teams, ps \in SUBSET Ids : TxLinksTS(n, t, ps)
     [] k = "rc" -> \/ \E n \in RcNames \cap {"rcInc", "rcDec"}, p \in Ids, t \in Teams : TxRc(n, p, t, 0)
                    \/ \E p \in Ids, t \in Teams, c \in CountPool : "rcSet" \in RcNames /\ TxRc("rcSet", p, t, c)
     [] k = "commitAction" -> AddCommitAction
